@@ -76,6 +76,7 @@ func init() {
 			{Name: "C02-FALL", Floor: 1, Doc: "switch: a case block that ends without a control is followed by the next block (the block evaluation sits in a loop over the cases and is not followed by an unconditional return)", Run: nop},
 			{Name: "C02-LEVEL", Floor: 2, Doc: "the level of break N / continue N is read by the loop nodes", Run: nop},
 			{Name: "C02-FRAME", Floor: 78, Doc: "evaluation methods of AST nodes keep no run-time values (data.Value, cells, contexts) in the node: a node is shared by every activation that reaches it, recursive ones included", Run: nop},
+			{Name: "C02-BUILD", Floor: 100, Doc: "node constructors keep every child (expression, statement list, branch list) they are given: no child parameter is replaced or ignored before the node is built", Run: nop},
 			{Name: "C02-CTX", Floor: 1, Doc: "Context.CreateContext allocates a fresh variable vector for every call", Run: nop},
 		},
 	})
@@ -656,6 +657,7 @@ func c02Run(r *Run) {
 	}
 	c02Fall(r, npkg)
 	c02Frame(r, npkg)
+	c02Build(r, npkg)
 	c02Level(r, npkg)
 	c02Reducers(r, npkg)
 	c02Ctx(r)
@@ -1145,6 +1147,105 @@ func c02Frame(r *Run, npkg *packages.Package) {
 	for _, tn := range tns {
 		if !bad[tn] {
 			r.ok("node.("+tn+")#no-values-in-node", examined[tn], "evaluation methods keep no run-time value in the node")
+		}
+	}
+}
+
+// c02Build: a node constructor keeps every child it is given. Each parameter that carries program
+// structure (data.GetValue, a slice of them, or a slice of branch structs) reaches the node it
+// builds, unchanged or wrapped by a call that receives it; a constructor that reassigns such a
+// parameter before building the node, or never uses it, drops part of the program.
+func c02Build(r *Run, npkg *packages.Package) {
+	r.curRule = "C02-BUILD"
+	info := npkg.TypesInfo
+	dataPath := modPath + "/data"
+	var isChild func(t types.Type, depth int) bool
+	isChild = func(t types.Type, depth int) bool {
+		if t == nil || depth > 2 {
+			return false
+		}
+		if isNamed(t, dataPath, "GetValue") {
+			return true
+		}
+		switch u := t.Underlying().(type) {
+		case *types.Slice:
+			if isChild(u.Elem(), depth+1) {
+				return true
+			}
+			if st, ok := u.Elem().Underlying().(*types.Struct); ok {
+				for i := 0; i < st.NumFields(); i++ {
+					if isChild(st.Field(i).Type(), depth+1) {
+						return true
+					}
+				}
+			}
+		}
+		return false
+	}
+	for _, fd := range funcDecls(npkg) {
+		if fd.Recv != nil || !strings.HasPrefix(fd.Name.Name, "New") || fd.Body == nil || fd.Type.Results == nil {
+			continue
+		}
+		fk := funcKey(npkg, fd)
+		for _, f := range fd.Type.Params.List {
+			if !isChild(info.TypeOf(f.Type), 0) {
+				continue
+			}
+			for _, nm := range f.Names {
+				if nm.Name == "_" {
+					continue
+				}
+				po := info.Defs[nm]
+				used, reassigned := false, token.NoPos
+				ast.Inspect(fd.Body, func(n ast.Node) bool {
+					switch x := n.(type) {
+					case *ast.AssignStmt:
+						for i, l := range x.Lhs {
+							if id, ok := l.(*ast.Ident); ok && info.Uses[id] == po && x.Tok == token.ASSIGN {
+								// p = wrap(p) keeps the child; anything else replaces it
+								keeps := false
+								if i < len(x.Rhs) && len(x.Rhs) == len(x.Lhs) {
+									ast.Inspect(x.Rhs[i], func(m ast.Node) bool {
+										if rid, ok := m.(*ast.Ident); ok && info.Uses[rid] == po {
+											keeps = true
+										}
+										return true
+									})
+									if c, ok := ast.Unparen(x.Rhs[i]).(*ast.CallExpr); !ok || len(c.Args) == 0 {
+										keeps = false
+									} else if keeps {
+										// only single-result wrappers of the same child (operandOrMissing(from, p))
+										direct := false
+										for _, a := range c.Args {
+											if rid, ok := ast.Unparen(a).(*ast.Ident); ok && info.Uses[rid] == po {
+												direct = true
+											}
+										}
+										keeps = direct
+									}
+								}
+								if !keeps && !reassigned.IsValid() {
+									reassigned = x.Pos()
+								}
+							}
+						}
+					case *ast.Ident:
+						if info.Uses[x] == po {
+							used = true
+						}
+					}
+					return true
+				})
+				key := fk + "#keeps-child:" + nm.Name
+				switch {
+				case reassigned.IsValid():
+					r.bad(key, reassigned, "the constructor replaces its child parameter "+nm.Name+" before it builds the node: part of the program the parser handed over is dropped or altered at construction time")
+				case !used:
+					r.bad(key, nm.Pos(), "the constructor never uses its child parameter "+nm.Name+": that part of the program is dropped")
+				default:
+					r.ok(key, nm.Pos(), "the child handed to the constructor reaches the node")
+				}
+			}
 		}
 	}
 }
